@@ -293,6 +293,11 @@ def sized_shapes():
                                                                  ("c", True, b)), False), E)), ())),
                      ("z", True, INT)), False)
     return [
+        # `...: ...` declared first / in the middle of the key table (as `relaxed + other` leaves it)
+        ("dict", four[1], "first"), ("dict", four[1], "mid"),
+        ("dict", (("a", False, INT), ("b", True, STR)), "first"),
+        ("list", ("typed", ("dict", (("a", False, a), ("b", False, b)), "mid")), ()),
+        ("add", ("dict", (("a", False, INT),), True), ("dict", (("b", False, a), ("c", True, b)), True)),
         ("list", ("elems", (a, b, c)), ()), ("list", ("elems", (a, b, c, E)), ()),
         ("list", ("elems", (E, a, b, c)), ()), ("list", ("elems", (E, a, b, c, E)), ()),
         ("list", ("elems", (a, a, b)), ()), ("list", ("elems", (E, a, a, b, E)), ()),
